@@ -1,5 +1,7 @@
 import Spydr.Eblif.Props.C18
 import Spydr.Eblif.Props.C18RoundTrip
+import Spydr.Eblif.Props.C18ReadOk
+import Spydr.Eblif.Props.C18Ports
 #print axioms Spydr.Eblif.lexB_printB
 #print axioms Spydr.Eblif.lexB_continuation
 #print axioms Spydr.Eblif.parse_comment_line
@@ -30,3 +32,10 @@ import Spydr.Eblif.Props.C18RoundTrip
 #print axioms Spydr.Eblif.self_contained
 #print axioms Spydr.Eblif.undeclared_leaf
 #print axioms Spydr.Eblif.formal_actual_port_step
+#print axioms Spydr.Eblif.eblif_read_ok
+#print axioms Spydr.Eblif.eblif_roundtrip_subckt_total
+#print axioms Spydr.Eblif.read_fails_on_equal_names
+#print axioms Spydr.Eblif.formal_actual_port
+#print axioms Spydr.Eblif.ports_never_shrink
+#print axioms Spydr.Eblif.eblif_roundtrip_ports
+#print axioms Spydr.Eblif.hdr_port_list
